@@ -343,6 +343,14 @@ func concHarnesses() []concArg {
 		// a full disk: the WRITE fails at its first allocation (nothing modified, the cached inode stays shared)
 		{Name: "fulldisk-write-setattr", DiskSize: 1539 + 1 + 6, ImplFail: true, Setup: []fsx.Op{{K: "CREATE", H: "root", N: "g"}, {K: "FILL"}}, Clients: [][]fsx.Op{
 			{{K: "WRITE", H: "root/g", Off: 0, Cnt: 4096, Pat: 0x35, Stable: 2}}, {{K: "SETATTR", H: "root/g", NoSize: true, Mtime: 555}, {K: "SETATTR", H: "root/filler", Size: 0}}, {{K: "GETATTR", H: "root/g"}}}},
+		// a half-freed inode (the server's own Crash() stopped the background free): the first CREATE is handed its number,
+		// aborts, finishes the free in the foreground and starts again - while another CREATE of the same name runs
+		{Name: "create-create-halffreed", DiskSize: 3000, Probe: bigProbe, Setup: append(append([]fsx.Op{}, big530Setup...), fsx.Op{K: "REMOVE", H: "root", N: "big"}, fsx.Op{K: "SHRINKCRASH"}), Clients: [][]fsx.Op{
+			{{K: "CREATE", H: "root", N: "n"}}, {{K: "CREATE", H: "root", N: "n", As: "n2"}}, {{K: "LOOKUP", H: "root", N: "n", As: "l"}}}},
+		// a request waits for an inode lock while the inode cache (four slots) turns over and a third request on the same inode overtakes it
+		{Name: "eviction-contended", DiskSize: 3000, ICacheSz: 4, Setup: []fsx.Op{{K: "CREATE", H: "root", N: "a"}, {K: "CREATE", H: "root", N: "b"}, {K: "CREATE", H: "root", N: "c"}, {K: "CREATE", H: "root", N: "e"}, {K: "CREATE", H: "root", N: "f"}, {K: "CREATE", H: "root", N: "g"}}, Clients: [][]fsx.Op{
+			{{K: "WRITE", H: "root/b", Off: 0, Cnt: 10, Pat: 0x41, Stable: 2}, {K: "WRITE", H: "root/b", Off: 200, Cnt: 10, Pat: 0x43, Stable: 2}}, {{K: "WRITE", H: "root/b", Off: 100, Cnt: 10, Pat: 0x42, Stable: 2}},
+			{{K: "GETATTR", H: "root/a"}, {K: "GETATTR", H: "root/c"}, {K: "GETATTR", H: "root/e"}, {K: "GETATTR", H: "root/f"}, {K: "GETATTR", H: "root/g"}}}},
 		{Name: "eviction", DiskSize: 3000, ICacheSz: 6, Setup: []fsx.Op{{K: "CREATE", H: "root", N: "a"}, {K: "CREATE", H: "root", N: "b"}, {K: "CREATE", H: "root", N: "c"}, {K: "MKDIR", H: "root", N: "d"}, {K: "CREATE", H: "root/d", N: "e"}, {K: "CREATE", H: "root/d", N: "f"}}, Clients: [][]fsx.Op{
 			{{K: "GETATTR", H: "root/a"}, {K: "WRITE", H: "root/b", Off: 0, Cnt: 10, Pat: 0x41, Stable: 2}}, {{K: "LOOKUP", H: "root/d", N: "e"}, {K: "GETATTR", H: "root/b"}}, {{K: "RENAME", H: "root/d", N: "f", H2: "root", N2: "c"}, {K: "LOOKUP", H: "root", N: "c"}}}},
 	}
